@@ -172,6 +172,9 @@ def run(ctx, known, built):
         hist[key] = hist.get(key, 0) + 1
         rep = {"id": r["id"], "options": r["opts"], "bytes_hex": r["bytes"], "verdict": r["verdict"], "field": r["field"],
                "classes": r["classes"], "glif": bytes.fromhex(r["bytes"]).decode("utf-8", "replace")}
+        if r.get("l1_fail"):
+            ctx.disagreements.append({"what": "library hypothesis of the theorems fails on a value of this case",
+                                      "detail": r["l1_fail"], "id": r["id"]})
         if r["enc"].startswith("PANIC"):
             rep["demand"] = "encode_xml_with_options does not panic"
             ctx.violations.append(rep)
@@ -224,7 +227,7 @@ def run(ctx, known, built):
                 else:
                     exp = None
                 r["_tree"] = tree if r["enc"] == "Ok" else None
-                flags = [int("F3" in r["classes"]), int("advance-subnormal" in r["classes"]), int("empty-contour" in r["classes"])]
+                flags = [int("F3" in r["classes"]), int("empty-contour" in r["classes"])]
                 items.append((r["case"], packed([tree]) if r["enc"] == "Ok" else packed([[7]]), r["reparse"], flags))
             f.write(";\n".join("(%s,%s)" % (c, packed_pair(t, rp, fl)) for (c, t, rp, fl) in items))
             f.write("].\nEval vm_compute in mismatches_packed run_c02 cases.\n")
@@ -271,7 +274,7 @@ def run(ctx, known, built):
         ctx.samples.append({"options": r["opts"], "verdict": r["verdict"], "glif": bytes.fromhex(r["bytes"]).decode("utf-8", "replace")[:500]})
 
 
-def packed_pair(tree_packed, reparse_packed, flags=(0, 0, 0)):
+def packed_pair(tree_packed, reparse_packed, flags=(0, 0)):
     """expected dump = L_[tree; reparse]: both parts are already packed streams; re-pack as one list"""
     def unpack(s):
         ints = [int(x) for x in s.strip("[]").split(";")]
